@@ -90,7 +90,12 @@ Fixpoint parse_lines (ls : list string) : option (list mstream) :=
     | _, _ => None
     end
   end.
-Definition parse (m : string) : option (list mstream) := parse_lines (split_on nl m).
+(* "A manifest may not contain TAB characters, nor other ASCII whitespace characters or control codes other
+   than the spaces or newlines used as delimiters" *)
+Definition clean_char (c : ascii) : bool :=
+  Ascii.eqb c sp || Ascii.eqb c nl || ((32 <? cN c)%N && negb (cN c =? 127)%N).
+Definition parse (m : string) : option (list mstream) :=
+  if all_chars clean_char m then parse_lines (split_on nl m) else None.
 Definition valid_manifest (m : string) : bool := match parse m with Some _ => true | None => false end.
 
 (* ---------- soundness of the parser ---------- *)
@@ -137,7 +142,8 @@ Proof.
 Qed.
 Theorem parse_sound m ss : parse m = Some ss -> forallb wf_stream ss = true /\ render ss = m.
 Proof.
-  unfold parse. intros H. destruct (parse_lines_sound _ _ H) as [A B]. split; [exact A|].
+  unfold parse. destruct (all_chars clean_char m); [|discriminate].
+  intros H. destruct (parse_lines_sound _ _ H) as [A B]. split; [exact A|].
   rewrite B. apply join_split.
 Qed.
 
@@ -151,5 +157,6 @@ Example doc_example_2 :
                   ++ String nl "") = true /\
   valid_manifest ". 930625b054ce894ac40596c3f5a0d947+33 0:0:a" = false /\
   valid_manifest (". 930625b054ce894ac40596c3f5a0d947 0:0:a" ++ String nl "") = false /\
-  valid_manifest "" = true.
+  valid_manifest "" = true /\
+  valid_manifest (". 930625b054ce894ac40596c3f5a0d947+33 0:0:a" ++ String "013" (String nl "")) = false.
 Proof. vm_compute. repeat split; reflexivity. Qed.
